@@ -58,6 +58,13 @@ def circle_failures(seed):
     an = reg.sky_within(np.array([np.nan, ra, ra]), np.array([dec, np.nan, dec]), degin=True)
     if an[0] or an[1] or not an[2]:
         out.append(("nan_is_false", "NaN coordinates answered %r" % (list(an),)))
+    # NaN must stay False whatever the region covers (poles, RA=0, dec=0 are where a zero-filled NaN would land)
+    wide = Region(maxdepth=6)
+    wide.add_circles(np.radians([0.0, 0.0, 0.0, ra]), np.radians([90.0, -90.0, 0.0, 0.0]), np.radians([5.0, 5.0, 5.0, 5.0]))
+    wide.add_circles(np.radians(0.0), np.radians(dec), np.radians(5.0))
+    an = wide.sky_within(np.array([np.nan, ra, np.nan]), np.array([dec, np.nan, np.nan]), degin=True)
+    if an.any():
+        out.append(("nan_is_false", "NaN coordinates answered %r for a region covering the poles / RA=0 / dec=0" % (list(an),)))
     # area between caps
     cap = lambda r: 2 * np.pi * (1 - np.cos(np.radians(min(r, 180)))) * (180 / np.pi) ** 2
     area = reg.get_area()
